@@ -82,8 +82,8 @@ class _TabulationCutoff(object):
     return nr, cutoff
 
   def _check_positive(self, nr, dr, cutoff):
-    if not nr is None and nr <= 0:
-      raise ConfigParserException("'{nr}' in [Tabulation] section of potential definition cannot be 0 (zero) or negative.".format(**self._template_dict))
+    if not nr is None and nr < 2:
+      raise ConfigParserException("'{nr}' in [Tabulation] section of potential definition cannot be less than 2 (one row does not define a grid).".format(**self._template_dict))
     if not dr is None and not (0 < dr < float("inf")):
       raise ConfigParserException("'{dr}' in [Tabulation] section of potential definition cannot be 0 (zero), negative or not a finite number.".format(**self._template_dict))
     if not cutoff is None and not (0 < cutoff < float("inf")):
